@@ -26,6 +26,12 @@ func (s *ByteBlockSource) Size() uint64 {
 	return uint64(len(s.Source))
 }
 func (s *ByteBlockSource) ReadBlock(off uint64, sz int) ([]byte, error) {
+	if off >= uint64(len(s.Source)) || sz < 0 {
+		return nil, io.EOF
+	}
+	if off+uint64(sz) > uint64(len(s.Source)) {
+		sz = int(uint64(len(s.Source)) - off)
+	}
 	return s.Source[off : off+uint64(sz)], nil
 }
 
